@@ -10,7 +10,7 @@ import bpexport
 import facto_ast as fa
 import harness as H
 
-EXTRA = "Valid.CheckC01 Facto.IO Valid.CellCheck Valid.StateCheck"
+EXTRA = "Valid.CheckC01 Facto.IO Valid.CellCheck Valid.StateCheck Factorio.Nets"
 BOUNDARY = [0, 1, -1, 2, -2, 3, 5, 7, -7, 2147483647, -2147483648, 65536, -65536, 46341, 1000]
 
 
@@ -268,6 +268,12 @@ def case_for(cid, decls, bpj, ideal=None, entities=None, c20=False, mems=None, h
         meta["latches"] = len(latches)
         meta["rings"] = [len(r_[0]) for r_ in rings]
         meta["latch_defs"] = latches
+    if ideal is None:
+        # the net ids of the term are re-derived from the blueprint's wires inside Coq (Factorio/Nets.v)
+        cdefs, cexpr = bpexport.net_certificate(bpj, cid)
+        defs += cdefs
+        expr = f"({expr}) && {cexpr}"
+        meta["nets_certificate"] = True
     return defs, expr, meta
 
 
@@ -280,6 +286,11 @@ def search_failing_input(cid, defs, n, n_inputs, rng, extra_values=(), var_ids=N
     """concrete evaluation of the blueprint (Circuit.run at V=Z) and of the source semantics on
     boundary and random valuations; returns (env list, [(observed, expected)...]) or None"""
     vals = list(dict.fromkeys(list(extra_values) + BOUNDARY))
+    # a power with a run-time exponent is evaluated as wrap32 (Z.pow a n): keep the magnitudes small,
+    # a 31-bit exponent would never finish
+    small = "Pow" in defs
+    if small:
+        vals = [v for v in vals if abs(v) <= 40]
     envs = []
     if n_inputs == 0:
         envs = [[]]
@@ -290,7 +301,10 @@ def search_failing_input(cid, defs, n, n_inputs, rng, extra_values=(), var_ids=N
             for _ in range(400):
                 envs.append([rng.choice(vals) for _ in range(n_inputs)])
         for _ in range(200):
-            envs.append([rng.randint(-(1 << 31), (1 << 31) - 1) for _ in range(n_inputs)])
+            if small:
+                envs.append([rng.randint(-40, 40) for _ in range(n_inputs)])
+            else:
+                envs.append([rng.randint(-(1 << 31), (1 << 31) - 1) for _ in range(n_inputs)])
         for _ in range(100):
             envs.append([rng.randint(-20, 20) for _ in range(n_inputs)])
     if var_ids and var_ids != list(range(1, len(var_ids) + 1)):
